@@ -27,7 +27,7 @@ GLSDEFS = ('\\gls@defglossaryentry{%(l)s}{name={%(n)s},text={%(t)s},plural={%(t)
 def gen_doc(rng, k, kind=None):
     """documents that define / observe state: macros, glossary, languages, packages, placeholders, item counters"""
     names = gen.Names(rng)
-    kind = kind or rng.choice(['define', 'use', 'gls-def', 'gls-use', 'lang', 'math', 'items', 'pkg', 'plain', 'theorem', 'cref', 'cref', 'lang-unknown', 'lang-option', 'theorem', 'theorem-use', 'theorem-use'])
+    kind = kind or rng.choice(['define', 'use', 'gls-def', 'gls-use', 'lang', 'math', 'items', 'pkg', 'plain', 'theorem', 'cref', 'cref', 'lang-unknown', 'lang-option', 'theorem', 'theorem-use', 'theorem-use', 'pkg-dcls', 'pkg-dcls'])
     if kind == 'cref':
         # package cleveref with a sed file that may lack labels the document uses (a stale file)
         c = cref.make(rng, stale=rng.random() < 0.6)
@@ -61,6 +61,11 @@ def gen_doc(rng, k, kind=None):
     elif kind == 'pkg':
         src = '\\usepackage{%s} %s \\textcolor{red}{%s} \\eqref{x}' % (rng.choice(['xcolor', 'amsmath', 'biblatex', 'hyperref']), names.word(), names.word())
         o['pack'] = rng.choice(['', 'babel'])
+    elif kind == 'pkg-dcls':
+        # the same document class with different package lists: what one call loads must not be loaded for the next
+        src = '%s \\eqref{eq:%s} \\textcolor{red}{%s} \\autoref{%s} %s' % (names.word(), names.word(), names.word(), names.word(), names.word())
+        o['dcls'] = rng.choice(['article', 'article', 'book', 'scrartcl'])
+        o['pack'] = rng.choice(['amsmath', 'xcolor', '', 'hyperref', 'amsmath,xcolor', 'babel'])
     elif kind == 'theorem-use':
         # uses theorem environments that THIS document does not declare (an earlier document may have)
         src = '\\begin{thm} %s \\end{thm} \\begin{lemma} %s \\end{lemma} %s' % (names.word(), names.word(), names.word())
@@ -98,7 +103,8 @@ def run(ctx):
         seqs.append([gen_doc(rng, i) for i in range(k)])
     # every (definer, observer) pair of the stateful kinds at least once, in both orders
     for a, b in [('define', 'use'), ('gls-def', 'gls-use'), ('lang-unknown', 'lang-option'), ('theorem', 'theorem-use'), ('cref', 'cref'),
-                 ('math', 'math'), ('items', 'items'), ('lang', 'plain'), ('pkg', 'use')]:
+                 ('math', 'math'), ('items', 'items'), ('lang', 'plain'), ('pkg', 'use'),
+                 ('pkg-dcls', 'pkg-dcls'), ('pkg-dcls', 'pkg-dcls'), ('pkg-dcls', 'pkg-dcls')]:
         seqs.append([gen_doc(rng, 0, a), gen_doc(rng, 1, b)])
         seqs.append([gen_doc(rng, 0, a), gen_doc(rng, 1, 'plain'), gen_doc(rng, 2, b), gen_doc(rng, 3, b)])
     ctx.stats['_rule'] = ('sequences of 2-6 (document, options) calls in one interpreter (subprocess), built so that earlier documents define macros, '
